@@ -337,6 +337,7 @@ def run_s1(seed, tier, log):
     res_path = os.path.join(d, 's1.json')
     if os.path.exists(res_path):
         log('S1/S2: cached result %s' % key)
+        os.utime(d)
         return json.load(open(res_path))
     os.makedirs(d, exist_ok=True)
     cases = corpus_cases() + compiled_paths(log) + gen_cases(seed, tier)
@@ -994,6 +995,7 @@ def run_lines_suite(name, mode_h, mode_d, cases, seed, tier, log):
     res_path = os.path.join(d, name + '.json')
     if os.path.exists(res_path):
         log('%s: cached result %s' % (name, key))
+        os.utime(d)
         return json.load(open(res_path))
     os.makedirs(d, exist_ok=True)
     cpath = os.path.join(d, 'cases.txt')
@@ -1079,7 +1081,7 @@ def parse_verdicts(text):
     return {'ok': ok, 'diffs': diffs, 'props': props, 'stats': stats, 's2_ok': ok2, 'notes': notes}
 
 
-def prune_cache(keep=8):
+def prune_cache(keep=40):
     if not os.path.isdir(CACHE):
         return
     ds = sorted((os.path.getmtime(os.path.join(CACHE, x)), x) for x in os.listdir(CACHE) if re.fullmatch(r'[0-9a-f]{24}', x))
